@@ -830,3 +830,33 @@ func ruleALKey(c *Ctx) {
 	}
 	c.Check(okNew && nExisting > 0, key+"/new-entry", P.pos(fn.Pos()), "a new arena records the requested type's own pointer", "a new arena does not record the requested type's pointer (or no existing-entry path was found)")
 }
+
+// ---------- AL-FINAL (C10, C11)
+
+// ruleALFinal: memory handed out from a bank is reused only after an explicit
+// Close. Decoded values do not point back at their bank, so the bank object
+// becoming unreachable says nothing about the values carved out of it: a
+// finalizer or cleanup that recycles a bank reuses live memory.
+func ruleALFinal(c *Ctx) {
+	c.Rule("AL-FINAL", "no finalizer or cleanup is attached to anything in the module: banks are recycled by Close alone, never by the collector's verdict on the bank object", 1)
+	P := c.P
+	n := 0
+	for _, fn := range P.ModuleFuncs() {
+		for _, cs := range callsIn(fn) {
+			if cs.Static == nil {
+				continue
+			}
+			switch qualName(cs.Static) {
+			case "runtime.SetFinalizer", "runtime.AddCleanup":
+				if isNilConst(stripChange(cs.Common.Args[len(cs.Common.Args)-1])) {
+					continue // clearing a finalizer
+				}
+				n++
+				c.Bad(fmt.Sprintf("%s/finalizer#%d", fnKey(fn), n), P.pos(cs.Instr.Pos()), "a finalizer or cleanup is installed: if it recycles a bank (or anything decoded values point into) the memory is reused while values decoded from it are still live")
+			}
+		}
+	}
+	if n == 0 {
+		c.OK("module/no-finalizers", "-", "runtime.SetFinalizer / runtime.AddCleanup are not used")
+	}
+}
